@@ -83,7 +83,9 @@ theorem readPrincipal_ser (b r : Bytes) (h : b.length ≤ 29) :
   simp only [List.cons_append, List.append_assoc]
   rw [readLebCrate_uleb _ _ (by omega)]
   simp only [show ((1 : UInt8) ≠ 1) = False by simp, if_false]
-  have h2 : ¬ b.length > 29 := by omega
+  have h2 : ¬ b.length > Gen.wirePrincipalMax := by
+    have : Gen.wirePrincipalMax = 29 := by decide
+    omega
   simp only [h2, if_false]
   exact takeN_append b r
 
